@@ -476,6 +476,45 @@ func Gen(r *hx.Rng, tier string, w io.Writer) {
 		}
 	}
 
+	// --- the DA includer INSIDE a block application (seed C07-I): `runinc at=k` = one includer pass right before the
+	// k-th durable write of the sync loop (SaveBlockData(h) | state | SetHeight(h) | SaveBlockData(h+1) ...), all marks
+	// of the scan set.  (b) at every boundary of a run; (a) crash at every boundary of a run, restart, rescan, includer
+	// pass BEFORE / while the pending block is applied again
+	ishapes := [][]int{{1, 1}, {0, 1}}
+	if thorough {
+		ishapes = append(ishapes, []int{1, 0}, []int{1, 1, 1})
+	}
+	for si, shape := range ishapes {
+		ih := uint64(1 + si%3)
+		nw := 3 * (len(shape) + 1)
+		for at := 0; at <= nw; at++ {
+			g.reset(ih, uint64(si%2))
+			for _, k := range shape {
+				g.produce(k)
+			}
+			g.spread(g.parts(), g.start, 3, false)
+			g.op("runinc at=%d", at)
+			if r.Chance(40) {
+				g.op("crash keep=%d", r.Intn(nw+8))
+				g.op("run")
+			}
+		}
+		for keep := 0; keep <= nw; keep++ {
+			g.reset(ih, uint64((si+1)%2))
+			for _, k := range shape {
+				g.produce(k)
+			}
+			g.spread(g.parts(), g.start, 3, false)
+			g.op("run")
+			g.op("crash keep=%d", keep)
+			g.op("runinc at=%d", r.Intn(3))
+			if r.Chance(30) {
+				g.op("restart")
+				g.op("run")
+			}
+		}
+	}
+
 	// --- clean restart with parked items: everything but one part of the first non-genesis block is on DA
 	for i := 0; i < 4; i++ {
 		ih := uint64(1 + i)
